@@ -944,6 +944,30 @@ func (s *decScope) ruleDIRange(rule string) {
 				n++
 				key := fmt.Sprintf("%s range index#%d into [%d]", qname(fn), n, arr.Len())
 				ok1, why := sliceLenAtMost(fn, seq, b, arr.Len())
+				if !ok1 {
+					// a parameter: the bound is owed by every caller in scope
+					if pi := paramIndex(seq); pi >= 0 {
+						if node := c.CG().Nodes[fn]; node != nil {
+							nSites, all := 0, true
+							for _, in := range node.In {
+								if in.Site == nil || !s.in[in.Caller.Func] {
+									continue
+								}
+								args := actualArgs(in.Site.Common())
+								if pi >= len(args) {
+									continue
+								}
+								nSites++
+								if okc, _ := sliceLenAtMost(in.Caller.Func, args[pi], in.Site.Block(), arr.Len()); !okc {
+									all = false
+								}
+							}
+							if all && nSites > 0 {
+								ok1, why = true, fmt.Sprintf("every one of the %d call sites in the decoder scope passes a slice bounded by the array length", nSites)
+							}
+						}
+					}
+				}
 				if ok1 {
 					c.ok(rule, key, ia.Pos(), why)
 				} else {
